@@ -89,7 +89,7 @@ theorem rnd_nonpos {prec : Int} (h : prec ≤ 0) (m0 : Mant) : rnd prec m0 = m0 
 theorem numberCore_length (s : List Char) (neg signed : Bool) (mant : List Char) (e prec : Int)
     (hs : (if signed then 1 else 0) + mant.length + expLen e ≤ s.length)
     (hneg : neg = true → signed = true) (hlen : 1 ≤ s.length)
-    (hround : ∀ m0 : Mant, m0.e = e →
+    (hround : ∀ m0 : Mant, m0.e = e → mlen m0.ip m0.fp ≤ mant.length →
       mlen (rnd prec m0).ip (rnd prec m0).fp + expLen (rnd prec m0).e ≤ mlen m0.ip m0.fp + expLen m0.e) :
     (numberCore s neg signed mant e prec).length ≤ s.length := by
   unfold numberCore
@@ -104,9 +104,7 @@ theorem numberCore_length (s : List Char) (neg signed : Bool) (mant : List Char)
   · simpa using hlen
   · split
     · simpa using hlen
-    · have hm := hround { ip := ipart.drop dropped, fp := dropTrail '0' (fo.getD []), e := e } rfl
-      simp only [] at hm
-      have hfpl := dropTrail_length_le '0' (fo.getD [])
+    · have hfpl := dropTrail_length_le '0' (fo.getD [])
       have hml : mlen (ipart.drop dropped) (dropTrail '0' (fo.getD [])) + dropped ≤ mant.length := by
         have h1 := mlen_cases (ipart.drop dropped) (dropTrail '0' (fo.getD []))
         simp only [List.length_drop] at h1
@@ -117,6 +115,8 @@ theorem numberCore_length (s : List Char) (neg signed : Bool) (mant : List Char)
         | some f =>
           simp only [dotLen, Option.getD_some] at hsp h1 hfpl ⊢
           omega
+      have hm := hround { ip := ipart.drop dropped, fp := dropTrail '0' (fo.getD []), e := e } rfl (by simp only []; omega)
+      simp only [] at hm
       have hW : mlen (rnd prec { ip := ipart.drop dropped, fp := dropTrail '0' (fo.getD []), e := e }).ip
           (rnd prec { ip := ipart.drop dropped, fp := dropTrail '0' (fo.getD []), e := e }).fp +
           expLen (rnd prec { ip := ipart.drop dropped, fp := dropTrail '0' (fo.getD []), e := e }).e ≤
@@ -133,8 +133,12 @@ theorem numberCore_length (s : List Char) (neg signed : Bool) (mant : List Char)
           | true => simp [hneg rfl]
         omega
 
+/-- the exponent that `number` reads from `s` (`none`: the input is returned unchanged) -/
+def modelExp (s : List Char) : Option Int :=
+  expOfRest ((if ((s.head? == some '-') || (s.head? == some '+')) = true then s.drop 1 else s).dropWhile notE)
+
 theorem number_length_gen (s : List Char) (prec : Int)
-    (hround : ∀ m0 : Mant,
+    (hround : ∀ m0 : Mant, modelExp s = some m0.e → mlen m0.ip m0.fp ≤ s.length →
       mlen (rnd prec m0).ip (rnd prec m0).fp + expLen (rnd prec m0).e ≤ mlen m0.ip m0.fp + expLen m0.e) :
     (number s prec).length ≤ s.length := by
   unfold number
@@ -142,10 +146,11 @@ theorem number_length_gen (s : List Char) (prec : Int)
   · exact Nat.le_refl _
   · rename_i hlen
     simp only []
-    generalize hneg : (s.head? == some '-') = neg
-    generalize hsg : (neg || s.head? == some '+') = signed
+    have hme : modelExp s = expOfRest ((if ((s.head? == some '-') || (s.head? == some '+')) = true then s.drop 1 else s).dropWhile notE) := rfl
+    generalize hneg : (s.head? == some '-') = neg at hme ⊢
+    generalize hsg : (neg || s.head? == some '+') = signed at hme ⊢
     have hns : neg = true → signed = true := by intro h; rw [← hsg, h]; rfl
-    generalize hbody : (if signed = true then s.drop 1 else s) = body
+    generalize hbody : (if signed = true then s.drop 1 else s) = body at hme ⊢
     have hbl : body.length + (if signed then 1 else 0) = s.length := by
       rw [← hbody]; cases signed <;> simp <;> omega
     have htd : (body.takeWhile notE).length + (body.dropWhile notE).length = body.length := by
@@ -153,11 +158,12 @@ theorem number_length_gen (s : List Char) (prec : Int)
       rw [List.length_append] at this
       exact this
     generalize body.takeWhile notE = mant at htd ⊢
-    generalize body.dropWhile notE = rest at htd ⊢
+    generalize body.dropWhile notE = rest at htd hme ⊢
     split
     · exact Nat.le_refl _
     · rename_i e he
-      apply numberCore_length s neg signed mant e prec _ hns (by omega) (fun m0 _ => hround m0)
+      apply numberCore_length s neg signed mant e prec _ hns (by omega)
+        (fun m0 h1 h2 => hround m0 (by rw [hme, he, h1]) (by omega))
       have : expLen e ≤ rest.length := by
         cases rest with
         | nil => simp [expOfRest] at he; subst he; simp [expLen]
